@@ -109,6 +109,10 @@ def run_modes_scenario(idx, sc, texts):
         variant = idx % 4
         twins = variant in (1, 3) and sc["form"] != "stdin"
         big = variant == 2 and sc["form"] in ("file", "files_from")
+        #   utf16: the files are stored as UTF-16LE behind a BOM (the byte length of a result is not that of its UTF-8 form)
+        #   loglevel: the diagnostics are switched off or turned up (reporting an error and logging it are different things)
+        utf16 = (idx // 4) % 3 == 1
+        loglevel = [None, "OFF", None, "DEBUG", None, "ERROR", None][idx % 7]
         for k, (f, cls) in enumerate(sorted(sc["class"].items())):
             names = [{0: "f1.pas", 1: "sub/f2.dpr", 2: "f3.PAS"}, {0: "a b.Dpk", 1: "deep/er/Gr\u00f6\u00dfe.pas", 2: "c.DPR"}][(idx // 4) % 2]
             name = names.get(k, f"g{k}.pas") if sc["form"] in ("dir", "files_from", "file") else f"f{k + 1}.pas"
@@ -132,6 +136,10 @@ def run_modes_scenario(idx, sc, texts):
                 c = None
             if c is None:
                 return [], True
+            if utf16 and cls in ("formatted", "shrinks", "grows", "samelen"):
+                c16 = b"\xff\xfe" + c.decode("utf-8").encode("utf-16-le")
+                if check_class(cls, c16):
+                    c = c16
             contents[f] = c
             os.makedirs(os.path.dirname(path), exist_ok=True)
             with open(path, "wb") as fh:
@@ -147,7 +155,7 @@ def run_modes_scenario(idx, sc, texts):
                 with open(pp, "wb") as fh:
                     fh.write(b"a;\n")
                 pads.append(pp)
-        mode_args = ["--mode", sc["mode"]]
+        mode_args = ["--mode", sc["mode"]] + (["--log-level", loglevel] if loglevel else [])
         stdin = b""
         form = sc["form"]
         if form == "file":
@@ -166,7 +174,7 @@ def run_modes_scenario(idx, sc, texts):
             stdin = contents[f0] or b""
             args = mode_args
         rc, out, err = run_bin(args, root, stdin=stdin, env={"RAYON_NUM_THREADS": "1"} if big else None)
-        what = f"mode={sc['mode']} form={form} classes={sc['class']}" + (" (names differing in case only)" if twins else "") + (" (first file > 256 KiB, one thread, padding files)" if big else "")
+        what = f"mode={sc['mode']} form={form} classes={sc['class']}" + (" (names differing in case only)" if twins else "") + (" (first file > 256 KiB, one thread, padding files)" if big else "") + (" (UTF-16LE files)" if utf16 else "") + (f" --log-level {loglevel}" if loglevel else "")
         for pp in pads:
             if open(pp, "rb").read() != b"a;\n":
                 problems.append({"clause": "files_mode_result" if sc["mode"] == "files" else "only_files_mode_writes", "detail": f"a formatted padding file was changed ({what})"})
@@ -203,6 +211,8 @@ def run_modes_scenario(idx, sc, texts):
             else:
                 for f in sc["printed"]:
                     exp = oracle(contents[f])[1]
+                    if exp.startswith(b"\xff\xfe"):
+                        exp = exp[2:].decode("utf-16-le").encode("utf-8")      # the listing on stdout is text, not the file's bytes
                     if (files[f].encode() + b":\n" + exp + b"\n") not in out:
                         problems.append({"clause": "stdout_result", "detail": f"{f}: formatted text not printed under its name ({what})"})
         return problems, skipped
@@ -336,6 +346,20 @@ def run_enc_scenario(idx, sc):
                 problems.append({"clause": "round_trip", "detail": f"file holds {list(now)}, the specification's encoder gives {list(exp)} ({what})"})
         # the piped path
         rc2, out2, err2 = run_bin(args, root, stdin=inp)
+        # ... and a producer that delivers the first byte of the input (half a BOM) well before the rest
+        if not sc["error"] and len(inp) >= 2 and (idx % 3 == 0 or inp[:1] in (b"\xff", b"\xfe", b"\xef")) and idx % 2 == 0:
+            import time as _t
+            e = dict(os.environ); e.pop("PASFMT_VERIF_TRACE", None)
+            pr = subprocess.Popen([PASFMT] + args, cwd=root, stdin=subprocess.PIPE, stdout=subprocess.PIPE, stderr=subprocess.PIPE, env=e)
+            try:
+                pr.stdin.write(inp[:1]); pr.stdin.flush(); _t.sleep(0.25)
+                pr.stdin.write(inp[1:2]); pr.stdin.flush(); _t.sleep(0.15)
+                pr.stdin.write(inp[2:]); pr.stdin.close()
+                out4 = pr.stdout.read(); pr.stderr.read(); rc4 = pr.wait(timeout=60)
+            except Exception as ex:
+                pr.kill(); rc4, out4 = -998, b""
+            if rc4 != 0 or out4 != exp:
+                problems.append({"clause": "round_trip", "detail": f"stdin delivered in three pieces (1 + 1 + rest bytes): exit status {rc4}, output {list(out4)[:40]}, expected {list(exp)[:40]} ({what})"})
         if sc["error"]:
             if rc2 == 0:
                 problems.append({"clause": "malformed_rejected", "detail": f"stdin: exit status 0 for malformed input ({what})"})
@@ -393,6 +417,78 @@ def run_legacy_scenario(idx, sc):
         if rc2 != 0 or out2 != exp:
             problems.append({"clause": "round_trip", "detail": f"stdin->stdout: exit status {rc2}, {len(out2)} bytes, expected {len(exp)} bytes = BOM + encode(format(decode(input))) ({what})"})
         return problems, False
+    finally:
+        shutil.rmtree(root, ignore_errors=True)
+
+
+def run_pair_scenario(idx, sc):
+    """sc: {label, codec, bom, long, short}: two files of one encoding in ONE invocation on one worker thread, the long one first;
+    each must hold BOM + encode(format(decode(input))) (no state of the first may leak into the second)"""
+    root = tempfile.mkdtemp(prefix=f"p{idx}_", dir=CLI_ROOT)
+    problems = []
+    try:
+        label, codec, bom = sc["label"], sc["codec"], bytes(sc["bom"])
+        files, exps = [], []
+        for k, text in enumerate((sc["long"], sc["short"], sc["long"][: len(sc["long"]) // 3])):
+            try:
+                inp = bom + text.encode(codec)
+            except UnicodeEncodeError:
+                return [], True
+            rc0, formatted = oracle(text.encode("utf-8"))
+            if rc0 != 0:
+                return [], True
+            p = os.path.join(root, f"p{k}.pas")
+            with open(p, "wb") as fh:
+                fh.write(inp)
+            files.append(p)
+            exps.append(bom + formatted.decode("utf-8").encode(codec))
+        pads = []
+        for k in range(13):
+            pp = os.path.join(root, f"pad{k:02d}.pas")
+            with open(pp, "wb") as fh:
+                fh.write(bom + "a;\n".encode(codec))
+            pads.append(pp)
+        rc, out, err = run_bin(["-C", f"encoding={label}"] + files + pads, root, env={"RAYON_NUM_THREADS": "1"})
+        what = f"encoding={label} bom={list(bom)} files of {[len(e) for e in exps]} result bytes in one invocation, one thread"
+        if rc != 0:
+            problems.append({"clause": "round_trip", "detail": f"exit status {rc} ({what}): {err[-200:].decode(errors='replace')}"})
+        for p, e in zip(files, exps):
+            now = open(p, "rb").read()
+            if now != e:
+                problems.append({"clause": "round_trip", "detail": f"{os.path.basename(p)} holds {len(now)} bytes, BOM + encode(format(decode(input))) has {len(e)} ({what})"})
+        return problems, False
+    finally:
+        shutil.rmtree(root, ignore_errors=True)
+
+
+UNENCODABLE = [("euc-jp", b"\x8f\xb0\xa1"), ("gbk", b"\x81\x30\x81\x30"), ("big5", b"\x87\x40"), ("shift_jis", b"\x87\x90"), ("iso-2022-jp", b"\x1b$B\x2d\x21\x1b(B")]
+
+
+def run_unencodable_scenario(idx, sc):
+    """sc: {label, raw}: bytes that the encoding can decode to a character it cannot encode again. If the run reports an error
+    the file must be byte-for-byte untouched and the status non-zero (in every mode); if it succeeds the bytes must round-trip."""
+    root = tempfile.mkdtemp(prefix=f"u{idx}_", dir=CLI_ROOT)
+    problems = []
+    try:
+        inp = b"x   :=  '" + sc["raw"] + b"' ;\n"
+        p = os.path.join(root, "u.pas")
+        with open(p, "wb") as fh:
+            fh.write(inp)
+        args = ["-C", f"encoding={sc['label']}"]
+        rc2, out2, err2 = run_bin(args, root, stdin=inp)
+        rc, out, err = run_bin(args + [p], root)
+        now = open(p, "rb").read()
+        what = f"encoding={sc['label']} bytes={list(sc['raw'])}"
+        if rc2 != 0:
+            # the result cannot be written in this encoding: an error, and the file is left alone
+            if rc == 0:
+                problems.append({"clause": "malformed_rejected", "detail": f"stdin->stdout fails but files mode exits 0 ({what})"})
+            if now != inp:
+                problems.append({"clause": "malformed_untouched", "detail": f"files mode failed (exit status {rc}) and left {len(now)} bytes in a file of {len(inp)} bytes ({what})"})
+        else:
+            if rc != 0 or now != out2:
+                problems.append({"clause": "round_trip", "detail": f"stdin->stdout succeeds with {len(out2)} bytes, files mode: exit status {rc}, {len(now)} bytes ({what})"})
+        return problems, rc2 == 0 and False
     finally:
         shutil.rmtree(root, ignore_errors=True)
 
